@@ -62,6 +62,15 @@ add("C05",
     "valid meshes; refusals must raise.",
     "Relies on C04 for Field.diff and C12 for rotate90; mappings with duplicate targets are not generated.")
 
+add("C06",
+    "Hypothesis-generated fields and direction sets; independent numpy sums as oracle; Fubini, cumulative/total "
+    "relation, linearity and translation invariance as metamorphic relations",
+    "Generated-input search over fields x meshes x directions x orders of integration x cumulative x mean direction "
+    "sets; integer-valued data make the reference sums exact, so rtol 1e-12 suffices; result meshes are checked to "
+    "be the source mesh with exactly the integrated axes removed.",
+    "numpy sum/cumsum/mean as the reference; translations of a few cells (far translations change the cell size by "
+    "rounding).")
+
 PENDING = {}
 
 
